@@ -162,16 +162,21 @@ def run(ctx):
     # trace replay on the transition system
     tcases = {i: cases[i] + " ~ " + traces[i] for i in traces}
     replayed = checklib.run_driver(ctx, "C02", tcases, args=["replay"], shards=shards) if tcases else {}
-    ok_traces, events, rejects = 0, 0, []
+    ok_traces, events, rejects, legacy = 0, 0, [], 0
     for i in sorted(tcases):
         r = replayed.get(i, ("MISSING", {}))[0]
         if r.startswith("ok "):
             ok_traces += len(traces[i].split(" ; "))
             events += int(r.split()[1])
+            legacy += int(r.split("legacy=")[1]) if "legacy=" in r else 0
         else:
             rejects.append((i, r))
     ctx.log(f"traces: {ok_traces} cascade traces replayed ({events} events), {len(rejects)} rejected; "
             f"{len(bad)} result disagreements")
+    if legacy:
+        ctx.notes.append(f"{legacy} traces come from a tree without the call sites cascade.handler.registered / cascade.added "
+                         "(hooks/C02b.patch): the order 'finish-handler observer before pool.AddTask' was not observable there")
+    cov["traces_without_c02b_hooks"] = legacy
     if not traces:
         ctx.notes.append("no hook events were observed: the tree under test does not contain the call sites of hooks/C02.patch; "
                          "the correspondence ran on property-level observables only (no trace replay, no directed schedule)")
